@@ -533,6 +533,9 @@ func (l *Loopback) Do(req *http.Request) (*http.Response, error) {
 	return ResponseFromResult(req, ex.Result, nil), nil
 }
 
+// Mu exposes the log mutex (for callers that prune the log).
+func (l *Loopback) Mu() *sync.Mutex { return &l.mu }
+
 // Last returns the most recent exchange.
 func (l *Loopback) Last() *LoopExchange {
 	l.mu.Lock()
